@@ -47,3 +47,15 @@ Definition run_sched (sched : list cstep) : jv :=
        (if sched_ok idle sched
         then JL (map (fun a => jv_outcome jv_tagged (Val a)) (spec_ctrace [] idle sched)) else jnone);
        jbool (lock_ok None sched) ].
+
+(* exception injected inside run(): for every abort point of [call] after [pre]: the state left behind
+   (as cache_info shows it) and the model's answers to the follow-up calls from that state;
+   then the demanded answers of pre ++ post (call not counted) and of pre ++ [call] ++ post *)
+Definition run_abort (pre : list wop) (f : bytes) (d : dict) (post : list wop) : jv :=
+  match wexec [] pre with
+  | Val s =>
+    JL [ JL (map (fun p => JL [jv_state p; JL (map (jv_outcome jv_wobs) (wtrace p post))]) (run_points s f d));
+         JL (map (jv_outcome jv_wobs) (spec_wtrace_total [] (pre ++ post)));
+         JL (map (jv_outcome jv_wobs) (spec_wtrace_total [] (pre ++ WRun f d :: post))) ]
+  | _ => jnone
+  end.
